@@ -618,3 +618,10 @@ Proof.
   eexists; eexists. split; [|split; [vm_compute; reflexivity | vm_compute; discriminate]].
   destruct Inv_initial as [[Hnd Hlt] H]. split; [split; assumption | exact H].
 Qed.
+
+Lemma plist_fault_history_lemma : forall ops k os s',
+  history Fixed ops (start (Some k)) = Ok (os, s') -> live s' = [].
+Proof. intros ops k; exact (plist_no_leak_lemma ops (Some k)). Qed.
+
+Lemma plist_fault_history_no_fault_lemma : forall ops k f, history Fixed ops (start (Some k)) <> Fault f.
+Proof. intros ops k; exact (plist_no_fault_lemma ops (Some k)). Qed.
